@@ -66,9 +66,10 @@ def s_parafac(draw):
     c["orthogonalise"] = draw(st.sampled_from([False, False, True, 1]))
     c["sparsity"] = draw(st.sampled_from([None, None, None, 0.2, 3]))
     c["l2_reg"] = draw(st.sampled_from([0, 0, 0.1]))
-    c["linesearch"] = draw(st.integers(0, 5)) == 0
+    c["linesearch"] = draw(st.integers(0, 2)) == 0      # a third of the cases reach the line-search iterations (6, 8)
     if c["linesearch"]:
         c["n_iter_max"] = draw(st.integers(7, 9))
+        c["bad"] = False
     return c
 
 
@@ -87,7 +88,7 @@ def _cp_real_ok(p):
     return False
 
 
-register("parafac", s_parafac(), b_parafac, dtypes=CPLX, flags=("cvg",), quick=120)
+register("parafac", s_parafac(), b_parafac, dtypes=CPLX, flags=("cvg",), quick=120, backends=True)
 
 
 @st.composite
@@ -125,7 +126,7 @@ def b_nn_parafac(e, ctx):
     return Call(D.non_negative_parafac, kw, expect_exc=e["bad"])
 
 
-register("non_negative_parafac", s_nn_parafac(), b_nn_parafac, flags=("cvg",), quick=100)
+register("non_negative_parafac", s_nn_parafac(), b_nn_parafac, flags=("cvg",), quick=100, backends=True)
 
 
 @st.composite
@@ -148,7 +149,7 @@ def b_nn_hals(e, ctx):
     return Call(D.non_negative_parafac_hals, kw, expect_exc=e["bad"])
 
 
-register("non_negative_parafac_hals", s_nn_hals(), b_nn_hals, flags=("cvg",), quick=100)
+register("non_negative_parafac_hals", s_nn_hals(), b_nn_hals, flags=("cvg",), quick=100, backends=True)
 
 
 @st.composite
@@ -171,7 +172,7 @@ def b_constrained(e, ctx):
     return Call(D.constrained_parafac, kw, expect_exc=e["bad"])
 
 
-register("constrained_parafac", s_constrained(), b_constrained, flags=("cvg",), quick=100)
+register("constrained_parafac", s_constrained(), b_constrained, flags=("cvg",), quick=100, backends=True)
 
 
 # ============================================================================
@@ -229,7 +230,7 @@ def b_tucker(e, ctx):
     return Call(D.tucker, kw)
 
 
-register("tucker", s_tucker(), b_tucker, quick=100)
+register("tucker", s_tucker(), b_tucker, quick=100, backends=True)
 
 
 @st.composite
@@ -313,8 +314,9 @@ register("non_negative_tucker_hals", s_nn_tucker_hals(), b_nn_tucker_hals, quick
 def s_tt(draw):
     shape = draw(small_shape(2, 4, 2, 4, 64))
     n = len(shape)
-    form = draw(st.sampled_from(["int", "list", "tuple"]))
-    rank = draw(st.integers(1, 3)) if form == "int" else [1] + [draw(st.integers(1, 3)) for _ in range(n - 1)] + [1]
+    form = draw(st.sampled_from(["int", "list", "list", "tuple"]))
+    # ranks up to 5: larger than the unfolding allows in about half of the cases, so that the decomposition clips them
+    rank = draw(st.integers(1, 3)) if form == "int" else [1] + [draw(st.integers(1, 5)) for _ in range(n - 1)] + [1]
     return {"X": draw(enc(shape)), "rank": rank, "form": form, "svd": draw(SVDS)}
 
 
@@ -328,10 +330,10 @@ register("tensor_train", s_tt(), b_tt, quick=120)
 
 @st.composite
 def s_ttm(draw):
-    n = draw(st.integers(1, 2))
-    shape = [draw(st.integers(1, 3)) for _ in range(2 * n)]
-    form = draw(st.sampled_from(["int", "list"]))
-    rank = draw(st.integers(1, 3)) if form == "int" else [1] + [draw(st.integers(1, 3)) for _ in range(n - 1)] + [1]
+    n = draw(st.sampled_from([1, 2, 2, 3]))
+    shape = [draw(st.integers(1, 3 if n < 3 else 2)) for _ in range(2 * n)]
+    form = draw(st.sampled_from(["int", "list", "list"]))
+    rank = draw(st.integers(1, 3)) if form == "int" else [1] + [draw(st.integers(1, 5)) for _ in range(n - 1)] + [1]
     return {"X": draw(enc(shape)), "rank": rank, "form": form, "svd": draw(SVDS)}
 
 
